@@ -61,15 +61,23 @@ def main():
         tpls = p1[0] + "|" + p2[0]
         plan.append({"lines": lines, "vars": [v1, v2] + ([{"name": [90], "arr": False}] if "Z=" in tpls else [])
                      + ([{"name": [90, 36], "arr": False}] if "Z$=" in tpls else []) + ([{"name": [67], "arr": True}] if "C(" in tpls else [])})
+    # a spelling Color BASIC's tokeniser does not read as one name (ATN, XTO, ..) is handled with the keyword-shaped names below
+    def isname(nm):
+        return all(len(t) == 1 and t[0]["k"] == "id" for t in (decblex.lex_body(nm), decblex.lex_body(nm + "$")))
+    odd = [nm for nm in names + names_long if not isname(nm)]
+    names = [nm for nm in names if isname(nm)]
+    names_long = [nm for nm in names_long if isname(nm)]
+    rep.count("names_with_a_keyword_inside", len(odd))
     allnames = names + names_long
     # every name once in every position class, paired with a near neighbour (same first two characters / suffix / kind variants)
     for k, nm in enumerate(names if thorough else gen.sample(rng, names, 330)):
         for pos in (POS if thorough else gen.sample(rng, POS, 4)):
             partner = rng.choice([nm, nm + "X", nm[:2] + "9", nm[0], nm[0] + "Q", rng.choice(allnames)])
-            add(nm, pos, partner, rng.choice(POS))
+            add(nm, pos, partner if isname(partner) else nm, rng.choice(POS))
     for nm in (names_long if thorough else gen.sample(rng, names_long, 250)):
         for pos in gen.sample(rng, POS, 6 if thorough else 2):
-            add(nm, pos, nm[:2] + rng.choice(["", "A", "ZZ"]), rng.choice(POS))
+            partner = nm[:2] + rng.choice(["", "A", "ZZ"])
+            add(nm, pos, partner if isname(partner) else nm, rng.choice(POS))
     if thorough:
         for _ in range(40000):
             add(rng.choice(allnames), rng.choice(POS), rng.choice(allnames), rng.choice(POS))
@@ -86,7 +94,9 @@ def main():
     kws = sorted({w for w in decblex.KEYWORDS if w.isalpha()})
     kwnames = sorted(set(kws + [w + "X" for w in kws] + [w[:k] for w in kws for k in range(2, len(w))] + ["ERRO", "ERN", "TOX", "ONE", "IFF", "ORB", "FNA"]))
     if not thorough:
-        kwnames = sorted(set(kws + gen.sample(rng, kwnames, 60)))
+        kwnames = sorted(set(kws + gen.sample(rng, kwnames, 60) + gen.sample(rng, odd, 40)))
+    else:
+        kwnames = sorted(set(kwnames + odd))
     gplan = []
     for nm in kwnames:
         for pos in POS:
